@@ -198,7 +198,7 @@ class C04(Property):
     technique = ('fault injection into inputs: a 23-rule catalogue of rule-violating constructs (random operands, every syntactic position class: statement, block, '
                  'call, class bases, decorator, lambda, subscript ...) embedded in valid programs; oracle = Err of the rule\'s variant at an offset inside the '
                  'offending construct, with CPython also rejecting the text')
-    level_text = ('every rule x host pair deterministically on each run (23 rules x 27 hosts) plus ~40k (quick) / 1M (thorough) random (rule, operands, host, '
+    level_text = ('every rule x host pair deterministically on each run (23 rules x 27 hosts) plus ~100k (quick) / 1M (thorough) random (rule, operands, host, '
                   'surrounding program) combinations; all malformed-number strings over 0-9 _ . e x o b j + - up to length 4 (quick) / 5 (thorough) are enumerated and '
                   'must be rejected whenever CPython rejects them')
     level_note = ('the expected error variant per rule was written from the error type documentation; message texts of OtherError are only matched by keyword; '
@@ -207,7 +207,7 @@ class C04(Property):
             'is reported in classes; distinct by case hash')
 
     def budget(self, tier):
-        return 40000 if tier == 'quick' else 1000000
+        return 100000 if tier == 'quick' else 1000000
 
     def explicit_cases(self, ctx):
         alphabet = '0123456789_.exobj+-'[:19]
